@@ -49,6 +49,8 @@ S.time = _FakeTime
 def build(hist):
     """Interpret a history (list of ops) on a fresh cell; returns (cell, log of violations)."""
     CLOCK.now = 1000000.0
+    del C07_ERRS[:]
+    build.removed = {}
     cell = S.Cell('top')
     racks = {}
     servers = {}
@@ -95,6 +97,20 @@ def build(hist):
                 apps[op[1]].blacklisted = op[2]
         elif k == 'tick':
             CLOCK.now += op[1]
+        elif k == 'rmserver':
+            # what Loader.remove_server does to the tree (the server may come back with 'readd')
+            srv = servers.get(op[1])
+            if srv is not None and srv.parent is not None:
+                removed = getattr(build, 'removed', {})
+                removed[op[1]] = srv.parent
+                build.removed = removed
+                srv.remove_all()
+                srv.parent.remove_node(srv)
+        elif k == 'readd':
+            srv = servers.get(op[1])
+            par = getattr(build, 'removed', {}).pop(op[1], None)
+            if srv is not None and par is not None and srv.parent is None:
+                par.add_node(srv)
         elif k == 'reset_children':
             kids = list(cell.children_iter())
             cell.reset_children()
@@ -117,6 +133,28 @@ def build(hist):
 
 
 PROP = os.environ.get('VERIF_PROP', 'C01')
+
+# C07 is a relation between the start and the end of one walk of a queue: observed by wrapping the real
+# Cell._find_placements (the queue is not visible from outside Cell.schedule)
+C07_ERRS = []
+_REAL_FIND = S.Cell._find_placements
+
+
+def _observed_find(self, queue, servers):
+    queue = list(queue)
+    before = [(a, a.server) for a in queue]
+    states = {n: s_.state for n, s_ in servers.items()}
+    _REAL_FIND(self, queue, servers)
+    gained = [j for j, (a, sv) in enumerate(before) if a.server is not None and a.server != sv]
+    for j, (a, sv) in enumerate(before):
+        if (sv is not None and sv in servers and states[sv] is S.State.up and not a.blacklisted and
+                a.final_rank != S._UNPLACED_RANK and a.server != sv and not any(g < j for g in gained)):
+            C07_ERRS.append('%s (position %d) was on up server %s and is now on %s although nobody ahead of it gained '
+                            'a placement' % (a.name, j, sv, a.server))
+
+
+if PROP == 'C07':
+    S.Cell._find_placements = _observed_find
 
 
 def check(cell, before, states):
@@ -156,6 +194,9 @@ def check(cell, before, states):
                     errs.append('identity %s held by %s is also available' % (a.identity, an))
             elif a.server is not None:
                 errs.append('%s is placed without identity' % an)
+    elif PROP == 'C07':
+        errs += C07_ERRS
+        del C07_ERRS[:]
     elif PROP == 'C04':
         def walk(node):
             if isinstance(node, S.Server):
@@ -252,6 +293,10 @@ def rand_history(rng):
             h.append(('tick', rng.choice([10, 100])))
         elif c < 0.73:
             h.append(('reset_children',))
+        elif c < 0.76:
+            h.append(('rmserver', 's%d' % rng.randrange(nsrv)))
+        elif c < 0.78:
+            h.append(('readd', 's%d' % rng.randrange(nsrv)))
         else:
             h.append(('schedule',))
     h.append(('schedule',))
@@ -286,6 +331,7 @@ def main(argv):
     rng = random.Random(int(os.environ.get('VERIF_SEED', '0')))
     t0 = time.time()
     n = 0
+    fallback = None
     while time.time() - t0 < float(os.environ.get('VERIF_REPLAY_BUDGET', '60')):
         n += 1
         h = rand_history(rng)
@@ -296,8 +342,17 @@ def main(argv):
         if errs:
             h = shrink(h)
             _, errs = build(h)
-            print('FAILING-INPUT ' + json.dumps({'history': h, 'why': errs[:3], 'property': PROP}))
+            found = {'history': h, 'why': errs[:3], 'property': PROP}
+            if PROP == 'C07' and any(op[0] == 'move' for op in h):
+                # a history that goes through the known finding (instance moved to another partition keeps its
+                # server): keep it as a fall-back and look for one that does not
+                fallback = fallback or found
+                continue
+            print('FAILING-INPUT ' + json.dumps(found))
             return 0
+    if fallback:
+        print('FAILING-INPUT ' + json.dumps(fallback))
+        return 0
     print('searched %d histories, none fails' % n)
     return 0
 
